@@ -345,6 +345,19 @@ func NewOpLib() *OpLib {
 		a := w.A("t1")
 		p.Txs = one("t1", &ammtypes.MsgJoinPool{Sender: a.Addr.String(), PoolId: 2, MaxAmountsIn: sdk.NewCoins(C("uusdc", 3e10), C("uelys", 1e10)), ShareAmountOut: I(1e15)})
 	})
+	// single-asset joins of the constant-product pool whose QUOTED share amount is far above what the
+	// deposit is worth (the quote is an unconstrained number from the caller)
+	l.Add("join_p2_single_usdc_t1_inflated_quote", "join", 0, func(w *World, p *BlockPlan) {
+		a := w.A("t1")
+		pool, _ := w.App.AmmKeeper.GetPool(w.RCtx(), 2)
+		p.Txs = one("t1", &ammtypes.MsgJoinPool{Sender: a.Addr.String(), PoolId: 2, MaxAmountsIn: sdk.NewCoins(C("uusdc", 1000000)), ShareAmountOut: pool.TotalShares.Amount.MulRaw(10)})
+	})
+	l.Add("join_p2_all_t1_quote_plus1", "join", 0, func(w *World, p *BlockPlan) {
+		// all-asset join quoting ONE share unit more than the deposit limits can buy
+		a := w.A("t1")
+		pool, _ := w.App.AmmKeeper.GetPool(w.RCtx(), 2)
+		p.Txs = one("t1", &ammtypes.MsgJoinPool{Sender: a.Addr.String(), PoolId: 2, MaxAmountsIn: sdk.NewCoins(C("uusdc", 3e9), C("uelys", 1e9)), ShareAmountOut: pool.TotalShares.Amount.QuoRaw(1000).AddRaw(1)})
+	})
 	l.Add("join_p2_all_lp2", "join", 0, func(w *World, p *BlockPlan) {
 		a := w.A("lp2")
 		p.Txs = one("lp2", &ammtypes.MsgJoinPool{Sender: a.Addr.String(), PoolId: 2, MaxAmountsIn: sdk.NewCoins(C("uusdc", 3e11), C("uelys", 1e11)), ShareAmountOut: I(1e16)})
